@@ -203,7 +203,7 @@ def run_case(ctx, base, case):
         elif vet == "marker":
             req_path = "ALPENHORN_NODE"
         elif vet == "noncanon":
-            req_path = rel.replace("/", "//", 1)
+            req_path = ctx.rng.choice([rel.replace("/", "//", 1), rel.replace("/", "/./", 1), rel + "/", "./" + rel])
         elif vet == "scan_ok":
             req_path, recurse = acq, True
             (root / acq).mkdir(parents=True, exist_ok=True)
@@ -218,6 +218,7 @@ def run_case(ctx, base, case):
             req_path, recurse = acq, True
         ireq = w.ArchiveFileImportRequest.create(node=node, path=req_path, recurse=recurse, register=case["register"], completed=False)
         before_counts = (w.ArchiveAcq.select().count(), w.ArchiveFile.select().count())
+        copies_before = sorted((c.id, c.has_file, c.wants_file) for c in w.ArchiveFileCopy.select())
         res = sim.iterate("h1")
         if res["error"]:
             ctx.fail("C04:daemon-died", f"the daemon died importing {req_path!r}: {res['error'][:300]}", rp)
@@ -242,6 +243,11 @@ def run_case(ctx, base, case):
         never = kind in ("dot", "symlink", "dir", "fifo", "temp", "via_symlink", "missing", "root_file") or detected is None or fname is None
         if vet in (None,) and never and (after_counts != before_counts or (cr_after or None) != (tuple(crow) if crow else None)):
             ctx.fail("C04:imported-forbidden", f"{kind} path {rel!r} (detector -> {detected!r}) changed the index: acq/file counts {before_counts}->{after_counts}, copy {crow}->{cr_after}", rp)
+        if vet in ("absolute", "marker", "noncanon", "scan_missing", "scan_out"):
+            copies_after = sorted((c.id, c.has_file, c.wants_file) for c in w.ArchiveFileCopy.select())
+            crow_checked = [(i, "Y" if (h, wn) == ("M", "Y") else h, wn) for (i, h, wn) in copies_before]  # a suspect copy may have been verified meanwhile
+            if after_counts != before_counts or len(copies_after) != len(copies_before) or any(a[2] != b[2] or (a[1] != b[1] and b[1] != "M") for a, b in zip(copies_after, copies_before)):
+                ctx.fail("C04:imported-forbidden", f"the import request for {req_path!r} ({vet}) must be refused, but the index changed: acq/file counts {before_counts}->{after_counts}, copies {copies_before}->{copies_after}", rp)
         if vet is None and kind == "locked" and done:
             ctx.fail("C04:locked-completed", "the import request of a locked file was completed", rp)
         if not case["register"] and after_counts != before_counts:
